@@ -122,6 +122,26 @@ def _drive_files(args):
             k = max(1, len(msgs) // 2)
             msgs = [hdr] + msgs[:k] + [trl] + [dict(hdr, DE71=len(msgs) + 3)] + msgs[k:] + [dict(trl, DE71=2 * len(msgs) + 4)]
             n = len(msgs)
+        template = tid % 5 == 4
+        if template:
+            # a caller that keeps ONE dictionary per kind of message and changes values in place between writes (the
+            # dictionary still holds whatever the library added to it during the previous write): every message with
+            # PDS entries that fit one carrier is followed by a same-shaped one with other values of the same lengths
+            msgs2 = []
+            for m in msgs:
+                msgs2.append(m)
+                pk = [k for k in m if isinstance(k, str) and k.startswith('PDS') and isinstance(m[k], str)]
+                if pk and sum(7 + len(m[k]) for k in pk) <= 900 and not any(str(k).startswith('DE') and isinstance(m[k], str) and len(m[k]) > 900 for k in m):
+                    m2 = dict(m)
+                    vals = [m[k] for k in pk]
+                    for k, v in zip(pk, vals):
+                        m2[k] = v[::-1] if v[::-1] != v else v
+                    same = [i for i in range(len(pk)) for j in range(i + 1, len(pk)) if len(vals[i]) == len(vals[j])]
+                    if len(pk) > 1 and len(vals[0]) == len(vals[-1]):
+                        m2[pk[0]], m2[pk[-1]] = m2[pk[-1]], m2[pk[0]]
+                    msgs2.append(m2)
+            msgs = msgs2
+            n = len(msgs)
         f = drv.new_file()
         header = b''
         if tid % 4 >= 2 and not drv.THREADED:
@@ -145,8 +165,14 @@ def _drive_files(args):
                 w.write_many(dict(m) for m in msgs)          # the convenience entry point
                 events += [ipmc.iev(1, 'write', m=m) for m in msgs]
             else:
+                t = None
                 for m in msgs:
-                    w.write(dict(m))
+                    drv.yield_point()
+                    if template and t is not None and set(m) <= set(t) and all(k in m or k in ('DE48', 'DE62', 'DE123', 'DE124', 'DE125') for k in t):
+                        t.update(m)              # the same dictionary object again, values changed in place
+                    else:
+                        t = dict(m)
+                    w.write(t)
                     events.append(ipmc.iev(1, 'write', m=m))
             w.close()
         except BaseException as ex:  # noqa
@@ -252,6 +278,10 @@ def run(rep, wd, tier, seed):
                                                    (('pkg',), 'cp500'), (('gen', 600 + seed), 'latin_1'), (('pkgvar', 0), 'cp500'), (('pkg',), 'latin_1')])]
     jobs = jobs + tjobs
     outs = outs + isocheck.mark_threaded(isocheck.threaded('harness.c06', '_drive_files', tjobs, procs=2))
+    # two files written / read in lock-step (the turn changes at every message and every transfer)
+    ljobs = [(j[0], j[1], j[2], [x + 500 for x in j[3]]) for j in tjobs]
+    jobs = jobs + ljobs
+    outs = outs + isocheck.lockstep('harness.c06', '_drive_files', ljobs, procs=4)
     sizes = sorted({1012 * k + d for k in (1, 2, 3, 4, 5) for d in range(-14, 12) if 40 <= 1012 * k + d <= 5990})
     if tier == 'thorough':
         sizes = list(range(40, 5991, 1))[::3] + sizes
